@@ -54,6 +54,10 @@ def cnt_lemmas(h):
     h.lemma('CNT positive only if some row has the key: step',
             ax + [m >= 1, z3.Implies(CNT(kap, m) > 0, z3.Exists([j], z3.And(1 <= j, j < m, keyc(j) == kap))), CNT(kap, m + 1) > 0],
             z3.Exists([j], z3.And(1 <= j, j < m + 1, keyc(j) == kap)))
+    h.lemma('CNT tail witness: base (n = j)', ax + [1 <= j], z3.Not(CNT(kap, j) > CNT(kap, j)))
+    h.lemma('CNT tail witness: step (n -> n + 1)',
+            ax + [1 <= j, j <= m, z3.Implies(CNT(kap, m) > CNT(kap, j), z3.Exists([i], z3.And(j <= i, i < m, keyc(i) == kap))), CNT(kap, m + 1) > CNT(kap, j)],
+            z3.Exists([i], z3.And(j <= i, i < m + 1, keyc(i) == kap)))
     h.lemma('CNT monotone: step (j -> j + 1)', ax + [1 <= i, i <= j, CNT(kap, i) <= CNT(kap, j)], CNT(kap, i) <= CNT(kap, j + 1))
 
 
